@@ -141,7 +141,12 @@ func (ctx *context) ResolveAndCompile(pathname string, opts py.CompileOpts) (py.
 
 	tryPaths := defaultPaths
 	if opts.UseSysPaths {
-		tryPaths = ctx.Store().MustGetModule("sys").Globals["path"].(*py.List).Items
+		// sys.path is an ordinary module attribute: a program may have rebound or deleted it
+		pathList, ok := ctx.Store().MustGetModule("sys").Globals["path"].(*py.List)
+		if !ok {
+			return py.CompileOut{}, py.ExceptionNewf(py.ImportError, "sys.path must be a list of directory names")
+		}
+		tryPaths = pathList.Items
 	}
 
 	out := py.CompileOut{}
